@@ -153,6 +153,21 @@ def m_restack(case, what):
 
 # ------------------------------------------------------------------ structure on a real v4 data set
 
+ACTS = ['slew', 'track', 'scan', 'stop', 'scan_ready', 'scan_complete', 'wind_stow']
+LABELS3 = ['', 'track', 'raster']
+
+
+def structure_line(case):
+    def enc(events, table, off=0):
+        ts = ','.join(str(int(round(2 * t))) for t, _ in events) or '-'
+        vs = ','.join(str(table.index(v) + off) for _, v in events) or '-'
+        return ts, vs
+    a = enc(case['activity'], ACTS)
+    l = enc(case['labels'], LABELS3)
+    t = enc(case['targets'], v4synth.TARGETS, 1)
+    return f"structure {case['T']} {a[0]} {a[1]} {l[0]} {l[1]} {t[0]} {t[1]}"
+
+
 def gen_structure_case(rng):
     T = rng.randint(2, 10)
     def events(vals, maxn):
@@ -165,7 +180,7 @@ def gen_structure_case(rng):
             out.append([t, v])
             prev = v
         return out
-    return dict(kind='structure', T=T, activity=events(['slew', 'track', 'scan', 'stop'], 6),
+    return dict(kind='structure', T=T, activity=events(ACTS, 6),
                 targets=events(v4synth.TARGETS, 4), labels=events(['track', 'raster', ''], 4))
 
 
@@ -181,6 +196,9 @@ def run_structure(case):
         out = {}
         for name in ('scan_index', 'compscan_index', 'target_index'):
             out[name] = [int(x) for x in d.sensor['Observation/' + name]]
+        out['scan_state'] = [str(x) for x in d.sensor['Observation/scan_state']]
+        out['label'] = [str(x) for x in d.sensor['Observation/label']]
+        out['target'] = [x.name for x in d.sensor['Observation/target']]
         steps = []
         for idx, state, target in d.scans():
             steps.append((int(idx), [int(x) for x in d.dumps]))
@@ -189,8 +207,21 @@ def run_structure(case):
     return out
 
 
-def judge_structure(case, out):
+def judge_structure(case, out, reply=None):
     T = case['T']
+    if reply is not None and not reply.startswith('E:') and reply != 'bad-op':
+        # segmentation computed by the Lean model (sensor_to_categorical + add_unmatched / align / remove / ...)
+        f = [[int(x) for x in part.split(',')] if part != '-' else [] for part in reply.split('|')]
+        states = ['slew', 'track', 'scan', 'stop']
+        tnames = ['Nothing'] + [t.split(',')[0] for t in v4synth.TARGETS]
+        want = dict(scan_index=f[0], compscan_index=f[1], target_index=f[2],
+                    scan_state=[states[i] if i < 4 else '?' for i in f[3]],
+                    label=[LABELS3[i] if i < 3 else '?' for i in f[4]],
+                    target=[tnames[i] if i < len(tnames) else '?' for i in f[5]])
+        for k in ('scan_index', 'compscan_index', 'scan_state', 'label', 'target', 'target_index'):
+            if out[k] != want[k]:
+                return (f'{k} per dump is {out[k]} but the documented segmentation of activity {case["activity"]}, '
+                        f'labels {case["labels"]}, targets {[(t, v.split(",")[0]) for t, v in case["targets"]]} gives {want[k]}')
     for name in ('scan_index', 'compscan_index'):
         v = out[name]
         if len(v) != T:
@@ -234,7 +265,10 @@ def evaluate(ctx, cases):
             continue
         try:
             out = run_structure(c)
-            v = judge_structure(c, out)
+            rep = common.run_model('C03', [structure_line(c)])[0]
+            v = judge_structure(c, out, rep)
+            if rep.startswith('E:'):
+                ctx.tag('structure-model-error')
         except Exception as e:   # noqa: BLE001
             out, v = {}, f'opening / iterating the synthetic v4 data set raised {type(e).__name__}: {str(e)[:100]}'
         ctx.tag('structure')
@@ -279,7 +313,7 @@ def run(ctx):
     ctx.matchers.update(MATCHERS)
     build = common.build_and_audit('C03', ctx.tier)
     cases = corpus() + [gen_case(ctx.rng) for _ in range(ctx.q(300, 10000))]
-    cases += [gen_structure_case(ctx.rng) for _ in range(ctx.q(40, 1500))]
+    cases += [gen_structure_case(ctx.rng) for _ in range(ctx.q(80, 3000))]
     bad = evaluate(ctx, cases)
     for c, v in bad:
         ctx.violation(c, v)
